@@ -27,7 +27,7 @@ THEOREMS = [
 ]
 TRUSTED_BASE = common.TRUSTED_BASE_COMMON
 ASSUMPTIONS = ["reference provider protocol; known findings D1 (late join arrival) and D9 (empty rerun)"]
-FAM = progs.family(loop_items=True, p_loop=0.3, probe=True, rerun_only_when_idle=True, intermediate_statuses=["pending", "running"], w_ctrl=1.0, p_items=0.25, p_retry=0.2, p_join=0.6, p_fail=0.15,
+FAM = progs.family(p_pause_drain=0.3, loop_items=True, p_loop=0.3, probe=True, rerun_only_when_idle=True, intermediate_statuses=["pending", "running"], w_ctrl=1.0, p_items=0.25, p_retry=0.2, p_join=0.6, p_fail=0.15,
                    p_intermediate=0.05, w_malformed=0.03, w_rerun=0.5, n_tasks=(2, 7), steps=(15, 70))
 
 
